@@ -326,6 +326,30 @@ fn capi_child(case: &str) {
                 let n = c::biscuit_serialize_sealed(Some(&t), buf.as_mut_ptr());
                 println!("announced {} wrote {}", size, n);
             }
+            "capi_builder_after_error" => {
+                // a refused fact (parse error) must leave the builder usable
+                let mut b = c::biscuit_builder().unwrap();
+                let bad = std::ffi::CString::new("this is not datalog(").unwrap();
+                let ok1 = c::biscuit_builder_add_fact(Some(&mut b), bad.as_ptr());
+                println!("add_fact(invalid) -> {}", ok1);
+                let good = std::ffi::CString::new("right(\"file1\", \"read\")").unwrap();
+                let ok2 = c::biscuit_builder_add_fact(Some(&mut b), good.as_ptr());
+                println!("add_fact(valid) -> {}", ok2);
+            }
+            "capi_authorizer_builder_build_null" => {
+                // a NULL builder must come back through the error channel
+                let r = c::authorizer_builder_build_unauthenticated(None);
+                println!("authorizer_builder_build_unauthenticated(NULL) -> {}", if r.is_none() { "NULL" } else { "handle" });
+            }
+            "capi_authorizer_builder_after_error" => {
+                let mut b = c::authorizer_builder().unwrap();
+                let bad = std::ffi::CString::new("allow if").unwrap();
+                let ok1 = c::authorizer_builder_add_policy(Some(&mut b), bad.as_ptr());
+                println!("add_policy(invalid) -> {}", ok1);
+                let good = std::ffi::CString::new("allow if true").unwrap();
+                let ok2 = c::authorizer_builder_add_policy(Some(&mut b), good.as_ptr());
+                println!("add_policy(valid) -> {}", ok2);
+            }
             _ => std::process::exit(2),
         }
     }
@@ -382,7 +406,7 @@ fn main() {
         "underdeclared_block_accepted" => underdeclared_block_accepted(),
         "iterations_zero_budget" => iterations_zero_budget(),
         "reject_if_alternatives" => reject_if_alternatives(),
-        "capi_public_key_serialize_secp256r1" | "capi_public_key_serialize_ed25519" | "capi_serialize_sealed" => capi_case(&case),
+        "capi_public_key_serialize_secp256r1" | "capi_public_key_serialize_ed25519" | "capi_serialize_sealed" | "capi_builder_after_error" | "capi_authorizer_builder_build_null" | "capi_authorizer_builder_after_error" => capi_case(&case),
         "snapshot_iteration_underflow" => snapshot_iteration_underflow(),
         "snapshot_iteration_overflow" => snapshot_iteration_overflow(),
         "closure_shadowing" => closure_shadowing(),
